@@ -522,9 +522,11 @@ Section Props.
     destruct (ends_nl (serialise m)); simpl; eexists; split; try reflexivity; simpl; auto.
   Qed.
 
-  Lemma rc_zero_iff : forall ds, RC ds = 0 <-> filter dconflict ds = [].
+  (* the exit status (8 bits) is zero exactly when no decision is conflicted; needs fact_rc_mode = RcConst with
+     clean -> 0, conflict -> non-zero below 256 *)
+  Lemma rc_zero_iff : forall ds, Nat.modulo (RC ds) 256 = 0 <-> filter dconflict ds = [].
   Proof.
-    intros. unfold returncode. destruct (filter dconflict ds); simpl; split; intros; auto; try discriminate.
+    intros. unfold returncode. simpl. destruct (filter dconflict ds); simpl; split; intros; auto; try discriminate.
   Qed.
 
   Lemma had_exec : forall c s s1, exec None (HAD c) s = (Done tt, s1) ->
@@ -560,7 +562,7 @@ Section Props.
     DEN fs (c_local c) fact_local_on_empty_minimal l ->
     DEN fs (c_remote c) fact_remote_on_empty_minimal r ->
     LM (c_strat c) b l r = Some (m, ds) ->
-    exists s', RUN None c fs = (Exit (RC ds), s') /\ out_complete c fs s' m.
+    exists s', RUN None c fs = (Exit (Nat.modulo (RC ds) 256), s') /\ out_complete c fs s' m.
   Proof.
     intros c fs b l r m ds HX HD HDec Hb Hl Hr HM.
     unfold run, main_merge. rewrite exec_bind. simpl (exec None getfs (init fs)). cbv iota beta.
@@ -608,10 +610,13 @@ Section Props.
   Proof.
     intros flt c fs s' R. unfold run in R.
     destruct (exec flt (MM c) (init fs)) as [res s] eqn:E.
-    destruct res as [n|k]; [|destruct k; discriminate]. simpl in R. inversion R; subst; clear R.
+    destruct res as [n|k]; [|destruct k; discriminate]. unfold status_of in R.
+    assert (Hn : Nat.modulo n 256 = 0) by (inversion R; auto).
+    assert (Hs : s = s') by (inversion R; auto). subst s'. clear R.
     apply exec_done_nofault in E. unfold main_merge in E. rewrite exec_bind in E.
     simpl (exec None getfs (init fs)) in E. cbv iota beta in E. simpl (s_fs (init fs)) in E.
-    destruct (negb (forallb (exists_ fs) [c_base c; c_local c; c_remote c])); [simpl in E; inversion E|].
+    destruct (negb (forallb (exists_ fs) [c_base c; c_local c; c_remote c]));
+      [simpl in E; inversion E; subst n; vm_compute in Hn; discriminate|].
     destruct (N.eqb (c_local c) devnull && N.eqb (c_remote c) devnull) eqn:Y.
     - left. apply andb_true_iff in Y. destruct Y as [Y1 Y2]. apply N.eqb_eq in Y1, Y2. split; auto. split; auto.
       rewrite exec_bind in E. destruct (exec None (HAD c) (init fs)) as [r1 s1] eqn:E1.
@@ -637,8 +642,8 @@ Section Props.
       unfold out_complete.
       destruct (c_decisions c); destruct (c_out c) as [o|].
       + destruct (block_exec o (dec_chunks ds ++ [nl]) s4) as [s5 [E5 _]]. rewrite E5 in E. simpl in E.
-        inversion E. split; [apply rc_zero_iff; auto|discriminate].
-      + simpl in E. inversion E. split; [apply rc_zero_iff; auto|discriminate].
+        inversion E. subst n. split; [apply rc_zero_iff; auto|discriminate].
+      + simpl in E. inversion E. subst n. split; [apply rc_zero_iff; auto|discriminate].
       + destruct (write_merged_exec m o s4) as [s5 [E5 [O5 F5]]]. rewrite E5 in E. simpl in E.
         inversion E; subst. split; [apply rc_zero_iff; auto|]. intros _. split.
         * intros ND. rewrite F5. apply upd_same; auto.
@@ -661,7 +666,7 @@ Section Props.
     (fst (RUN None c fs) = Exit 0 <-> filter dconflict ds = []).
   Proof.
     intros. destruct (finish_complete c fs b l r m ds) as [s' [R _]]; auto.
-    rewrite R. simpl. rewrite <- rc_zero_iff. split; intros Q; [inversion Q; auto | rewrite Q; auto].
+    rewrite R. simpl fst. rewrite <- rc_zero_iff. split; intros Q; [inversion Q; auto | rewrite Q; auto].
   Qed.
 
   (* ---------------- faults *)
@@ -671,8 +676,9 @@ Section Props.
   Proof.
     intros flt c fs s' R. unfold run in *.
     destruct (exec flt (MM c) (init fs)) as [res s] eqn:E.
-    destruct res as [n|k]; [|destruct k; discriminate]. simpl in R. inversion R; subst.
-    split; [apply exec_done_not_fired in E; auto|]. apply exec_done_nofault in E. rewrite E. reflexivity.
+    destruct res as [n|k]; [|destruct k; discriminate]. unfold status_of in R.
+    assert (Hs : s = s') by (inversion R; auto). subst s'.
+    split; [apply exec_done_not_fired in E; auto|]. apply exec_done_nofault in E. rewrite E. exact R.
   Qed.
 
   Definition kind_status (k : fkind) : status := match k with KExn => Exit 1 | KIntr => SigInt | KKill => SigKill end.
